@@ -207,8 +207,11 @@ Definition verify_item (meta : amap link) (it : item) : res unit :=
       let created := sdiff productPaths materialPaths in
       let deleted := sdiff materialPaths productPaths in
       let remained := sinter materialPaths productPaths in
-      (* note: the cleaned name is looked up in the maps as recorded *)
-      let modified := filter (fun name => negb (deep_equal (alookup materials name) (alookup products name)))
+      (* the names in [remained] are cleaned paths: the hashes are looked up under the cleaned paths as well
+         (cleanArtifactPaths; before repair F21 the cleaned name was looked up in the maps as recorded) *)
+      let cleanedMaterials := clean_artifact_paths materials in
+      let cleanedProducts := clean_artifact_paths products in
+      let modified := filter (fun name => negb (deep_equal (alookup cleanedMaterials name) (alookup cleanedProducts name)))
                              remained in
       do _ <- verify_rules meta materials created deleted modified expectedMaterials materialPaths;
       do _ <- verify_rules meta products created deleted modified expectedProducts productPaths;
